@@ -116,9 +116,13 @@ def ext_modules(ctx, tmp):
         entries = []
         for name in ('a', 'b', 'pkg/c', 'pkg/d'):
             r = rng.random()
-            if r < 0.35:
+            if r < 0.25:
                 entries.append(name + rng.choice(sufs))
-            elif r < 0.55:
+            elif r < 0.4 and len(sufs) > 1:
+                # several builds of one extension module side by side (an ABI-tagged file next to a bare '.so' left over from another
+                # build): the interpreter takes the first of ITS suffix list
+                entries += [name + sf for sf in rng.sample(sufs, rng.randint(2, len(sufs)))]
+            elif r < 0.6:
                 entries.append(name + '.py')
         if any(e.startswith('pkg/') for e in entries) and rng.random() < 0.8:
             entries.append('pkg/__init__.py')
